@@ -151,7 +151,7 @@ PROPS = {
         "num": 6,
         "vo": ["Properties/C06.vo"],
         "harness_timeout": 2400,
-        "rule": "random histories of 3..12 insert / update / retract / fire_all / reset ops over up to 6 facts of 3 types and 2..6 single-type rules (And/Or/Not trees of integer comparisons over 3 fields, "
+        "rule": "GRL-loader glue: every inert rule set is also written as GRL text, loaded through GrlReteLoader::load_from_string into a second engine that receives the same operations; every fire_all of the two engines must fire the same rules (a disagreement aborts the case and is reported). random histories of 3..12 insert / update / retract / fire_all / reset ops over up to 6 facts of 3 types and 2..6 single-type rules (And/Or/Not trees of integer comparisons over 3 fields, "
                 "possibly missing); even cases: actions with effects (assign a field, retract the matched fact), distinct priorities and at most one live fact per type (the outcome is then independent of HashSet "
                 "iteration order) - firings compared in order with the matched handle and the matched fact's contents as seen by the action; odd cases: inert actions, several facts per type, salience ties - "
                 "fired rule names compared as a multiset. After every op the three working-memory views are dumped. Systematic stream: 3..5 (thorough 6) facts over one or two types retracted in EVERY order with an update or fire_all squeezed in. Each case runs in a child process with a 60 s watchdog. non-trivial = at least one firing",
